@@ -1,0 +1,21 @@
+//go:build verif
+
+package common
+
+// VerifRewardsTrace, when set (verification harness only), receives the
+// float-derived raw amounts of CalculateRewards in the order the
+// implementation iterates its maps:
+//
+//	"pool-raw"  poolID  uint64(float64(pot) * normalizedShare), second pass order
+//	"pool-dist" poolID  the pool total handed to distributePoolRewards
+//	"op-raw"    nil     uint64(float64(total-cost) * (margin + (1-margin)*ownerRatio))
+//	"deleg-raw" key     uint64(stake/totalPoolStake * stakeholderRewardsTotal), loop order
+//
+// Add-only instrumentation; never set outside the harness.
+var VerifRewardsTrace func(event string, id []byte, value uint64)
+
+func verifRewardsTrace(event string, id []byte, value uint64) {
+	if VerifRewardsTrace != nil {
+		VerifRewardsTrace(event, id, value)
+	}
+}
